@@ -68,12 +68,57 @@ class Report:
         self.violations.extend(vs)
 
 
+class ImplementationRaised(Exception):
+    """An exception that left the package under test through a call the driver does not guard.
+
+    The drivers only feed inputs inside a property's quantifier, and on a tree where the property holds none of these
+    calls raises (otherwise the check would already fail); so this is reported as a violation, not as a harness error."""
+
+    def __init__(self, items):
+        super().__init__(f"{len(items)} unguarded implementation exception(s)")
+        self.items = items
+
+
+def _impl_frame(tb):
+    """(file:function:line, exception came out of the package?) -- True when a frame of the package under test lies
+    deeper in the traceback than the last harness frame"""
+    here = os.path.dirname(os.path.dirname(os.path.abspath(__file__)))
+    try:
+        import molgri
+        pkg = os.path.dirname(os.path.abspath(molgri.__file__))
+    except Exception:
+        return None
+    last_pkg, last_harness, i = None, -1, 0
+    last_pkg_i = -1
+    while tb is not None:
+        fn = os.path.abspath(tb.tb_frame.f_code.co_filename)
+        if fn.startswith(pkg + os.sep):
+            last_pkg = f"{os.path.relpath(fn, os.path.dirname(pkg))}:{tb.tb_frame.f_code.co_name}"
+            last_pkg_i = i
+        elif fn.startswith(here + os.sep):
+            last_harness = i
+        tb = tb.tb_next
+        i += 1
+    return last_pkg if last_pkg_i > last_harness else None
+
+
+def _classify_exception(case):
+    et, ev, tb = sys.exc_info()
+    where = _impl_frame(tb)
+    if where is not None and not isinstance(ev, HarnessError):
+        return {"impl_error": {"type": et.__name__, "msg": str(ev)[:160], "where": where,
+                               "traceback": traceback.format_exc(limit=14)}, "case": case}
+    return {"harness_error": traceback.format_exc(limit=12), "case": case}
+
+
 def _guarded(args):
     func, case = args
     try:
         return {"ok": func(case)}
+    except ImplementationRaised as e:        # from an Isolated child
+        return {"impl_error": e.items[0]["impl_error"], "case": case}
     except Exception:
-        return {"harness_error": traceback.format_exc(limit=12), "case": case}
+        return _classify_exception(case)
 
 
 class Isolated:
@@ -96,7 +141,8 @@ class Isolated:
                 try:
                     payload = pickle.dumps(("ok", self.func(case)))
                 except Exception:
-                    payload = pickle.dumps(("err", traceback.format_exc(limit=12)))
+                    c = _classify_exception(case)
+                    payload = pickle.dumps(("impl", c) if "impl_error" in c else ("err", c["harness_error"]))
                 with os.fdopen(w, "wb") as f:
                     f.write(payload)
             except BaseException:
@@ -110,6 +156,8 @@ class Isolated:
         if not data:
             raise HarnessError("isolated child died without a result")
         kind, val = pickle.loads(data)
+        if kind == "impl":
+            raise ImplementationRaised([val])
         if kind == "err":
             raise HarnessError("isolated child raised:\n" + val)
         return val
@@ -164,6 +212,9 @@ class Ctx:
             if jdump(a) != jdump(b):
                 self.recheck_mismatch.append({"case": cases[idx], "first": a, "second": b})
         results = [None] * n
+        impl = [r for r in raw if "impl_error" in r]
+        if impl and not any("harness_error" in r for r in raw):
+            raise ImplementationRaised(impl)
         for idx, r in zip(order, raw):
             if "harness_error" in r:
                 raise HarnessError(f"case {jdump(r['case'])[:400]} raised inside the harness:\n{r['harness_error']}")
